@@ -110,6 +110,7 @@ type rpRun struct {
 	stored   map[int]*sse.Message
 	finals   []*atomic.Bool // per put number (1-based), set by the finalizer
 	withFin  bool
+	dead     bool // the replayer panicked: nothing more is asked of it
 	problems []string
 }
 
@@ -149,6 +150,15 @@ func (r *rpRun) bad(f string, a ...any) { r.problems = append(r.problems, fmt.Sp
 
 // apply executes one operation of the history and compares what Put returns with the spec's expectation.
 func (r *rpRun) apply(i int, op rpOp) {
+	defer func() {
+		if p := recover(); p != nil {
+			r.bad("op %d: panicked in %s: %v", i, op.Op, p)
+			r.dead = true
+		}
+	}()
+	if r.dead {
+		return
+	}
 	b := r.b
 	switch op.Op {
 	case "tick":
@@ -435,8 +445,10 @@ func cmdReplay(args []string) {
 		for _, p := range r.problems {
 			res.violate(p, "put:"+mode+":"+strings.SplitN(p, ":", 2)[1][:min(24, len(strings.SplitN(p, ":", 2)[1]))], map[string]any{"driver": "replay", "behaviour": b})
 		}
-		r.checkProbes(res, *faults)
-		r.checkShape(res)
+		if !r.dead {
+			r.checkProbes(res, *faults)
+			r.checkShape(res)
+		}
 		if idx%997 == 0 {
 			res.sample(map[string]any{"kind": b.Kind, "n": b.N, "auto": b.Auto, "ttl": b.TTL, "gci": b.GCI, "ops": b.Ops, "probes": len(b.Probes), "first_probe": b.Probes[0]})
 		}
@@ -532,6 +544,12 @@ func cmdRetain(args []string) {
 			done <- r
 		}()
 		r := <-done
+		for _, p := range r.problems {
+			res.violate(p, "retain:history", map[string]any{"driver": "retain", "behaviour": b})
+		}
+		if r.dead || len(r.finals) < len(b.Dropped)+len(b.Retained) {
+			return
+		}
 		pending = append(pending, r)
 		if idx%499 == 0 {
 			res.sample(map[string]any{"kind": b.Kind, "n": b.N, "auto": b.Auto, "ttl": b.TTL, "gci": b.GCI, "ops": b.Ops, "dropped": b.Dropped, "retained": b.Retained})
